@@ -13,6 +13,11 @@ import nvlib
 from nvlib import VERIF, log
 
 
+# quick-tier multiplier of the stream sizes written in the property modules (they were sized for ~10 s checks;
+# the budget of a quick check is a few minutes)
+QUICK_K = int(os.environ.get("NV_QUICK_SCALE", "3"))
+
+
 class Ctx:
     def __init__(self, prop, tier, seed):
         self.prop, self.tier, self.seed = prop, tier, seed
@@ -28,12 +33,14 @@ class Ctx:
         return self.tier == "quick"
 
     def scale(self, q, t):
-        """case count of a stream: q in the quick tier, t in the thorough tier.  When a file the property is anchored
-        in differs from the tree the models were written for (self.boost), the quick tier spends more: min(t, 4q)."""
+        """case count of a stream: q x QUICK_K in the quick tier (never above t), t in the thorough tier.  When a file
+        the property is anchored in differs from the tree the models were written for (self.boost), the quick tier
+        spends three times more again."""
         if self.tier != "quick":
             return t
-        if self.boost and isinstance(q, (int, float)) and isinstance(t, (int, float)) and t > q:
-            return type(q)(min(t, 4 * q))
+        if isinstance(q, (int, float)) and isinstance(t, (int, float)) and t > q:
+            k = QUICK_K * (3 if self.boost else 1)
+            return type(q)(min(t, k * q))
         return q
 
     def tmpdir(self):
